@@ -131,8 +131,8 @@ def run(ctx):
     model = C.build_model(ID)
     rng = ctx.rng
     thorough = ctx.tier == "thorough" or not ctx.proof_ok
-    n_ring = 2600 if thorough else 520
-    n_bb = 640 if thorough else 110
+    n_ring = 2600 if thorough else 440
+    n_bb = 640 if thorough else 96
     stats = {"ring_ops": 0, "writes_ok": 0, "writes_failed_oversize": 0, "reads_ok": 0, "reads_enobufs": 0, "reads_empty": 0,
              "peeks": 0, "reclaims": 0, "ring_dumps": 0, "sem_mode_cases": 0, "nosem_cases": 0,
              "bb_log_calls": 0, "bb_fallback_notices": 0, "bb_dumps": 0, "bb_records_read_back": 0, "bb_gave_up_oversize": 0}
